@@ -47,3 +47,53 @@ func verifCalldataRoundTrip(n int) {
 func verifHarness_calldataRoundTrip0() { verifCalldataRoundTrip(0) }
 func verifHarness_calldataRoundTrip1() { verifCalldataRoundTrip(1) }
 func verifHarness_calldataRoundTrip2() { verifCalldataRoundTrip(2) }
+
+// packed instructions: the four columns go through the integer compressor (third-party intcomp,
+// modelled as an abstract lossless codec); what is decided is gnark's own packing / unpacking of
+// the columns, for 0..2 instructions with every field symbolic (StartCallData is a full uint64)
+func verifInstructionsRoundTrip(n int) {
+	cs := &System{}
+	cs.Instructions = make([]PackedInstruction, n)
+	for i := range cs.Instructions {
+		cs.Instructions[i] = PackedInstruction{BlueprintID: BlueprintID(verifNondetU32("bp")), ConstraintOffset: verifNondetU32("co"),
+			WireOffset: verifNondetU32("wo"), StartCallData: verifNondetU64("start")}
+	}
+	b, err := cs.instructionsToBytes()
+	verifAssert(err == nil, "instructions encode")
+	back := &System{}
+	err = back.instructionsFromBytes(b)
+	verifAssert(err == nil, "instructions decode what was encoded")
+	verifAssert(len(back.Instructions) == n, "same number of instructions")
+	for i := 0; i < n && i < len(back.Instructions); i++ {
+		verifAssert(back.Instructions[i] == cs.Instructions[i], "instruction decode(encode(x)) == x")
+	}
+	verifReach("instructions")
+}
+
+func verifHarness_instructionsRoundTrip0() { verifInstructionsRoundTrip(0) }
+func verifHarness_instructionsRoundTrip2() { verifInstructionsRoundTrip(2) }
+
+func verifHarness_levelsRoundTrip() {
+	cs := &System{}
+	n := verifChoose(3)
+	cs.Levels = make([][]uint32, n)
+	for i := range cs.Levels {
+		cs.Levels[i] = make([]uint32, 1+i)
+		for j := range cs.Levels[i] {
+			cs.Levels[i][j] = verifNondetU32("inst")
+		}
+	}
+	b, err := cs.levelsToBytes()
+	verifAssert(err == nil, "levels encode")
+	back := &System{}
+	err = back.levelsFromBytes(b)
+	verifAssert(err == nil, "levels decode what was encoded")
+	verifAssert(len(back.Levels) == n, "same number of levels")
+	for i := 0; i < n && i < len(back.Levels); i++ {
+		verifAssert(len(back.Levels[i]) == len(cs.Levels[i]), "same level size")
+		for j := 0; j < len(cs.Levels[i]) && j < len(back.Levels[i]); j++ {
+			verifAssert(back.Levels[i][j] == cs.Levels[i][j], "levels decode(encode(x)) == x")
+		}
+	}
+	verifReach("levels")
+}
